@@ -1402,6 +1402,28 @@ fn gen_codec(rng: &mut Rng, tier: Tier) -> W2Case {
     if c.filters.is_empty() {
         c.filters = gen_filters(rng, &[], 1, true, true);
     }
+    // one case in six blanks the body: a replacement by nothing (text, or the whole document); what comes out must
+    // still be a complete stream of the encoding, holding nothing
+    if rng.chance(1, 6) {
+        if rng.coin() {
+            c.filters.push(BodyFilter::Text(TextBodyFilter {
+                action: TextAction::Replace,
+                content: String::new(),
+                id: Some("blank".to_string()),
+                target_hash: None,
+            }));
+        } else {
+            c.filters = vec![BodyFilter::HTML(HTMLBodyFilter {
+                action: "replace".to_string(),
+                value: String::new(),
+                inner_value: None,
+                element_tree: vec!["html".into()],
+                css_selector: None,
+                id: Some("blank".to_string()),
+                target_hash: None,
+            })];
+        }
+    }
     // sometimes a long repetitive body so that back-references cross chunk boundaries
     if rng.chance(1, 6) {
         let unit = String::from_utf8_lossy(&c.body).to_string();
